@@ -125,7 +125,7 @@ public:
             dev[k] = opn2_init(rate);
             opn2_openBankData(dev[k], bank.data(), (long)bank.size());
             opn2_switchEmulator(dev[k], emu); opn2_setNumChips(dev[k], chips);
-            if(p.get("song", 0)) { opn2_openData(dev[k], song.data(), (unsigned long)song.size()); opn2_setLoopEnabled(dev[k], 0); opn2_setTempo(dev[k], 8.0); } // (x8: the end of the song is reached within the run)
+            if(p.get("song", 0)) { opn2_openData(dev[k], song.data(), (unsigned long)song.size()); opn2_setLoopEnabled(dev[k], 0); opn2_setTempo(dev[k], 8.0 - 0.37 * (double)((uint64_t)p.get("fmtseed") % 7)); } // (about x8: the end of the song is reached within the run; the multiplier varies so that the last period before the end has another length in every run)
         }
         const bool haveSong = p.get("song", 0) != 0;
         for(size_t i = 0; i < p.ops.size() && !run.failed(); ++i)
